@@ -335,6 +335,51 @@ func scripted(c *kit.Ctx) []job {
 			}
 		}
 	}
+	// ---- a replacement's NodeClaim vanishes (API + delivered to the cluster state) while its Node object lingers, in every
+	// position relative to the initializations of a 2- or 3-replacement command; also Node first, and undelivered
+	for _, nrepl := range []int{2, 3} {
+		for v := 0; v < nrepl; v++ {
+			u := (v + 1) % nrepl
+			launchAll := []jOp{start([]int{0, 1}, nrepl)}
+			for j := 0; j < nrepl; j++ {
+				launchAll = append(launchAll, env("launch", 0, j))
+			}
+			initRest := func(skip ...int) []jOp {
+				var out []jOp
+				for j := 0; j < nrepl; j++ {
+					if !contains(skip, j) {
+						out = append(out, env("init", 0, j))
+					}
+				}
+				return out
+			}
+			for _, how := range []string{"lingers", "node-first", "undelivered"} {
+				var vanish, later []jOp
+				switch how {
+				case "lingers":
+					vanish = []jOp{env("delapi", 0, v), env("delstate", 0, v)}
+				case "node-first":
+					vanish = []jOp{env("delapi-node-first", 0, v), env("delstate", 0, v)}
+				default:
+					vanish = []jOp{env("delapi", 0, v)}
+					later = []jOp{env("delstate", 0, v), recon(1), cleanup}
+				}
+				tail := append([]jOp{cleanup, deliver, cleanup, recon(1)}, later...)
+				seq := func(kind string, parts ...[]jOp) {
+					ops := append([]jOp{}, launchAll...)
+					for _, p := range parts {
+						ops = append(ops, p...)
+					}
+					add("replacement-claim-vanishes-"+how+"-"+kind, 2, append(ops, tail...)...)
+				}
+				seq("after-its-init", []jOp{env("init", 0, v)}, vanish, initRest(v), []jOp{recon(0)})
+				seq("after-it-was-latched", []jOp{env("init", 0, v), recon(0)}, vanish, initRest(v), []jOp{recon(1)})
+				seq("after-all-initialized", initRest(), vanish, []jOp{recon(0)})
+				seq("after-another-was-latched", []jOp{env("init", 0, u), recon(0), env("init", 0, v)}, vanish, initRest(u, v), []jOp{recon(0)})
+				seq("before-its-init", vanish, initRest(v), []jOp{recon(1)})
+			}
+		}
+	}
 	// ---- S5 a restart between any two steps of the protocol
 	base := []jOp{start([]int{0, 1}, 2), env("launch", 0, 0), env("launch", 0, 1), env("init", 0, 1), recon(0), env("init", 0, 0), recon(1), deliver, cleanup}
 	for pos := 0; pos <= len(base); pos++ {
@@ -454,7 +499,7 @@ func randomOp(r *kit.Rand, w *world, faults *int) *jOp {
 			evs = append(evs, ev{"init", rp.K, rp.J})
 		}
 		if rp.Exists && inflight && r.Chance(1, 12) {
-			evs = append(evs, ev{"delapi", rp.K, rp.J})
+			evs = append(evs, ev{kit.Pick(r, []string{"delapi", "delapi", "delapi-node-first"}), rp.K, rp.J})
 		}
 		if !rp.Exists && rp.InSt {
 			evs = append(evs, ev{"delstate", rp.K, rp.J})
